@@ -43,7 +43,8 @@ func c06Keywords() []namedVal {
 
 func c06Operators() []namedVal {
 	return []namedVal{{"Eq", stackage.Eq}, {"Ge", stackage.Ge}, {"ComparisonOperator(0)", stackage.ComparisonOperator(0)}, {"ComparisonOperator(9)", stackage.ComparisonOperator(9)},
-		{"nil", nil}, {"user(~=,ctx)", userOp{"~=", "ctx"}}, {"sliceOp(=~,ctx)", sliceOp{"=~", "ctx"}}, {"(*ComparisonOperator)(nil)", (*stackage.ComparisonOperator)(nil)}, {"user(,ctx)", userOp{"", "ctx"}}, {"user(~=,)", userOp{"~=", ""}}}
+		{"nil", nil}, {"user(~=,ctx)", userOp{"~=", "ctx"}}, {"sliceOp(=~,ctx)", sliceOp{"=~", "ctx"}}, {"(*ComparisonOperator)(nil)", (*stackage.ComparisonOperator)(nil)}, {"user(,ctx)", userOp{"", "ctx"}}, {"user(~=,)", userOp{"~=", ""}},
+		{"mapOp(nil)", mapOp(nil)}, {"funcOp(nil)", funcOp(nil)}}
 }
 
 // expression constructors (fresh instance per use where identity matters)
@@ -323,6 +324,18 @@ func c06Machine(c *Ctx, variant ...string) *Machine[*condInst] {
 			}
 			if got := cd.Expression(); got != in.ex {
 				bad("Expression:"+cls, "Expression()=%v (%T) want %v (%T)", got, got, in.ex, in.ex)
+			}
+			// the option getters follow the setters, whatever else was switched in between
+			if in.live {
+				if got := cd.CanNest(); got != !in.nnest {
+					bad("CanNest:"+cls, "CanNest()=%v although no-nesting is %v", got, in.nnest)
+				}
+				if got := cd.IsParen(); got != in.paren {
+					bad("IsParen:"+cls, "IsParen()=%v want %v", got, in.paren)
+				}
+				if got := cd.IsPadded(); got != !in.nspad {
+					bad("IsPadded:"+cls, "IsPadded()=%v although no-padding is %v", got, in.nspad)
+				}
 			}
 			if !in.hasBy {
 				// no bystander in the parallel machine
